@@ -6,4 +6,5 @@ import SwcVerif.Model.AlgoRunPopulation
 import SwcVerif.Model.AlgoRunNormalizer
 import SwcVerif.Model.AlgoRunBranches
 import SwcVerif.Model.AlgoRunRedirect
+import SwcVerif.Model.AlgoRunAssemble
 /-! all runners of generated definitions (imported by the root module only; the driver imports them one by one) -/
